@@ -97,7 +97,7 @@ def _second_run(obs, spec, second, lab, built, ctl, backend_kind, storage, stora
     if not storage_null:
         probe = labtech.Lab(storage=storage, runner_backend='serial')
         obs.cached_mid = {nid: probe.is_cached(task) for nid, task in built.shared.items()}
-    context2 = {**base_ctx, 'nonce': 'run2'}
+    context2 = {**base_ctx, **second.get('context_extra', {}), 'nonce': 'run2'}
     o2.context = context2
     if second.get('same_lab', True):
         lab.context.clear()
